@@ -40,11 +40,20 @@ WHAT DOES NOT HOLD OF EVERY REACHABLE STATE, OR IS NOT PROVED
          e.g. `enter` on an activated instance: `Api.illegal_enter_unflagged`), and C01's invariant is not
          proved to survive it.  Everything here needs `Api.Legal`.
   GAP 2  `NoMarks` (hence `Settled` / `Idle`, `Mach.ActiveOK` / `InactiveOK` of C08) is FALSE of some
-         reachable states (`Props.C01.stale_marks_witness`: `replayEnter` of a history that changes
-         nothing) and is NOT PROVED after `load` and `replayTransitions`.  It is proved exactly for
-         `QuietOf` (section 4): histories in which every `load / replayTransitions / replayEnter` is
-         followed by an `enter`, `exit` or `reset` (which end with `clearRequests`), or is a `replayEnter`
-         that answered `true`.
+         reachable states, and exactly ONE call can make it so: a `replayEnter` of a non-empty history that
+         answers `false` leaves the marks of its initial resolution on an instance that stays inactive
+         (`Props.C01.stale_marks_witness`; `Mach.step_noMarks_or_stale`: every other call, made on an instance
+         without marks, leaves none).  Such marks then survive every call that does not touch the registry and
+         a `load` into the still inactive instance (`Props.C01.stale_marks_survive_loadEnter`: `loadEnter` does
+         not clear requests first), and are gone after `enter / exit / reset`, a `load` into an ACTIVATED
+         instance (`R_::load` starts with `clearRequests()`), a `replayTransitions` or `replayEnter` that
+         answers `true`, or an `update / react / immediate…` that processes a request.
+         `NoMarks` is proved for `QuietOf` (section 4): every reachable history in which each `replayEnter` that
+         answered `false` on a non-empty history is later followed by one of the washing calls of the previous
+         sentence except the last kind.  In particular it HOLDS after `load` (all four activation combinations:
+         `Mach.load_noMarks`, `Mach.load_active_noMarks` — neither `R_::load` nor `RV_::loadEnter` ends with
+         `clearRequests()`, the commit / enter pass consumes every mark `deepLoadRequested` laid down,
+         Proofs/LoadMarks.lean) and after `replayTransitions` (both answers: `Mach.replayTransitions_noMarks`).
   GAP 3  `COK` of an instance that is NOT activated is not part of `Mach.Inv` (`DormInv` keeps `Clean` and
          `ResumableOK` only).  It follows from `NoMarks` on `QuietOf` histories; after a `replayEnter`
          that answered `false` it is true (the tree is `DRes`) but not recorded by the invariant.
@@ -547,6 +556,11 @@ def Op.washes : Op U → Bool
   | .enter | .exit | .reset => true
   | _ => false
 
+theorem Op.marksSafe_false {o : Op U} (h : o.marksSafe = false) : ∃ ts, o = .replayEnter ts ∧ ts ≠ [] := by
+  cases o with
+  | replayEnter ts => exact ⟨ts, rfl, by rintro rfl; simp [Op.marksSafe] at h⟩
+  | _ => simp [Op.marksSafe] at h
+
 namespace Mach
 
 theorem step_washes_noMarks {base : Node} {m : Mach U} (s : ApiStep U) (hi0 : Inv base m)
@@ -597,11 +611,60 @@ theorem step_replayEnter_noMarks {base : Node} {m : Mach U} (s : ApiStep U) (ts 
     intro he
     exact ((replayEnter_inv ts (hi.dorm (by simpa using hm)) he).1 hans).2
 
+/-- a `replayTransitions` that answered `true` ended with `clearRequests()` -/
+theorem step_replayTransitions_noMarks {base : Node} {m : Mach U} (s : ApiStep U) (ts : List Transition)
+    (hi0 : Inv base m) (hop : s.op = .replayTransitions ts)
+    (hans : ((m.feed s.ds s.rng).replayTransitions ts).2 = true)
+    (he : (m.step s).w.err = none) : (m.step s).root.NoMarks := by
+  have hi := feed_inv s.ds s.rng hi0
+  revert he
+  unfold step
+  dsimp only
+  generalize m.feed s.ds s.rng = m1 at hi hans
+  rw [hop]
+  dsimp only; split
+  · next hm => intro he; exact (replayTransitions_noMarks ts (hi.live hm) he).1 hans
+  · intro h; exact absurd h (violate_err _ _)
+
+/-- a `load` into an ACTIVATED instance leaves no mark whatever it started from (`R_::load` clears the
+requests before reading; the image of an inactive instance makes it `finalExit`) -/
+theorem step_load_active_noMarks {base : Node} {m : Mach U} (s : ApiStep U) (bits : List Bool) (hi0 : Inv base m)
+    (hop : s.op = .load bits) (hm : m.root.machineActive = true)
+    (he : (m.step s).w.err = none) : (m.step s).root.NoMarks := by
+  have hi := feed_inv s.ds s.rng hi0
+  have hm1 : (m.feed s.ds s.rng).root.machineActive = true := hm
+  revert he
+  unfold step
+  dsimp only
+  generalize m.feed s.ds s.rng = m1 at hi hm1
+  rw [hop]
+  dsimp only
+  intro he; exact load_active_noMarks bits hi hm1 he
+
+/-- **The only call that can leave a request mark behind** on an instance that carried none is a
+`replayEnter` of a non-empty history that answers `false`. -/
+theorem step_noMarks_or_stale {base : Node} {m : Mach U} (s : ApiStep U) (hi0 : Inv base m) (hn : m.root.NoMarks)
+    (he : (m.step s).w.err = none) :
+    (m.step s).root.NoMarks ∨
+      ∃ ts, s.op = .replayEnter ts ∧ ts ≠ [] ∧ ((m.feed s.ds s.rng).replayEnter ts).2 = false := by
+  cases hsafe : s.op.marksSafe
+  · obtain ⟨ts, hop, hne⟩ := Op.marksSafe_false hsafe
+    cases hans : ((m.feed s.ds s.rng).replayEnter ts).2
+    · exact .inr ⟨ts, hop, hne, hans⟩
+    · exact .inl (step_replayEnter_noMarks s ts hi0 hop hans he)
+  · exact .inl (step_noMarks s hi0 hn hsafe he)
+
+theorem load_eq_step (m : Mach U) (bits : List Bool) : m.load bits = m.step ⟨m.w.ds, m.w.rng, .load bits⟩ := rfl
+
 end Mach
 
-/-- Reachable by a history after which C01 proves that no request mark is left: every call is
-`marksSafe` (anything but `load / replayTransitions / replayEnter`), or is an `enter / exit / reset`
-(after anything), or is a `replayEnter` that answered `true`. -/
+/-- Reachable by a history after which no request mark is left (`QuietOf.noMarks`).  Every call is
+  * `marksSafe` — ANY call but a `replayEnter` of a non-empty history — made on a quiet instance, or
+  * made on ANY reachable instance and one of: `enter / exit / reset` (`wash`), a `replayEnter` that answered
+    `true` (`entered`), a `replayTransitions` that answered `true` (`replayed`), a `load` into an activated
+    instance (`loaded`).
+So the reachable histories that are NOT quiet are those with a `replayEnter` of a non-empty history that
+answered `false` and no washing call after it. -/
 inductive QuietOf (shape : Shape) (cfg : Config) : Mach U → Prop
   | create : QuietOf shape cfg (Mach.create shape cfg)
   | feed {m : Mach U} (ds : List (Decision U)) (rng : List U) : QuietOf shape cfg m → QuietOf shape cfg (m.feed ds rng)
@@ -609,6 +672,11 @@ inductive QuietOf (shape : Shape) (cfg : Config) : Mach U → Prop
   | wash {m : Mach U} (s : ApiStep U) : ReachableOf shape cfg m → s.op.washes = true → QuietOf shape cfg (m.step s)
   | entered {m : Mach U} (s : ApiStep U) (ts : List Transition) : ReachableOf shape cfg m →
       s.op = .replayEnter ts → ((m.feed s.ds s.rng).replayEnter ts).2 = true → QuietOf shape cfg (m.step s)
+  | replayed {m : Mach U} (s : ApiStep U) (ts : List Transition) : ReachableOf shape cfg m →
+      s.op = .replayTransitions ts → ((m.feed s.ds s.rng).replayTransitions ts).2 = true →
+      QuietOf shape cfg (m.step s)
+  | loaded {m : Mach U} (s : ApiStep U) (bits : List Bool) : ReachableOf shape cfg m →
+      s.op = .load bits → m.root.machineActive = true → QuietOf shape cfg (m.step s)
 
 namespace QuietOf
 variable {shape : Shape} {cfg : Config} {m : Mach U}
@@ -620,8 +688,10 @@ theorem reachable (h : QuietOf shape cfg m) : ReachableOf shape cfg m := by
   | safe s _ _ ih => exact ih.step s
   | wash s hr _ => exact hr.step s
   | entered s ts hr _ _ => exact hr.step s
+  | replayed s ts hr _ _ => exact hr.step s
+  | loaded s bits hr _ _ => exact hr.step s
 
-/-- a run of `marksSafe` calls from `Mach.create` -/
+/-- a run of `marksSafe` calls (anything but `replayEnter` of a non-empty history) -/
 theorem run (h : QuietOf shape cfg m) : (steps : List (ApiStep U)) →
     (∀ s ∈ steps, s.op.marksSafe = true) → QuietOf shape cfg (m.run steps) := by
   intro steps
@@ -635,6 +705,15 @@ theorem of_run (shape : Shape) (cfg : Config) (steps : List (ApiStep U))
     (hall : ∀ s ∈ steps, s.op.marksSafe = true) :
     QuietOf shape cfg ((Mach.create shape cfg : Mach U).run steps) :=
   QuietOf.create.run steps hall
+
+/-- `load` of ANY buffer into a quiet instance: the loaded instance is quiet … -/
+theorem load (h : QuietOf shape cfg m) (bits : List Bool) : QuietOf shape cfg (m.load bits) :=
+  Mach.load_eq_step m bits ▸ h.safe ⟨m.w.ds, m.w.rng, .load bits⟩ rfl
+
+/-- … and so is the result of a `load` into ANY reachable instance that is activated -/
+theorem load_active (h : ReachableOf shape cfg m) (hm : m.root.machineActive = true) (bits : List Bool) :
+    QuietOf shape cfg (m.load bits) :=
+  Mach.load_eq_step m bits ▸ QuietOf.loaded ⟨m.w.ds, m.w.rng, .load bits⟩ bits h rfl hm
 
 /-- **no request mark is left** -/
 theorem noMarks (h : QuietOf shape cfg m) : m.w.err = none → m.root.NoMarks := by
@@ -651,6 +730,12 @@ theorem noMarks (h : QuietOf shape cfg m) : m.w.err = none → m.root.NoMarks :=
   | entered s ts hr hop hans =>
     intro he
     exact Mach.step_replayEnter_noMarks s ts (hr.inv (Mach.step_errLe _ s he)) hop hans he
+  | replayed s ts hr hop hans =>
+    intro he
+    exact Mach.step_replayTransitions_noMarks s ts (hr.inv (Mach.step_errLe _ s he)) hop hans he
+  | loaded s bits hr hop hm =>
+    intro he
+    exact Mach.step_load_active_noMarks s bits (hr.inv (Mach.step_errLe _ s he)) hop hm he
 
 /-- between calls, activated: `Settled` of Proofs/Wf.lean (`OK` is a property of the declaration) -/
 theorem settled (h : QuietOf shape cfg m) (he : m.w.err = none) (hm : m.root.machineActive = true)
@@ -666,13 +751,25 @@ theorem idle (h : QuietOf shape cfg m) (he : m.w.err = none) (hm : m.root.machin
 theorem cok (h : QuietOf shape cfg m) (he : m.w.err = none) : m.root.COK :=
   Node.NoMarks_imp_COK m.root (h.noMarks he)
 
+/-- one more call on a quiet instance: quiet again unless it is a `replayEnter` of a non-empty history that
+answers `false` -/
+theorem step_or_stale (h : QuietOf shape cfg m) (s : ApiStep U) :
+    QuietOf shape cfg (m.step s) ∨
+      ∃ ts, s.op = .replayEnter ts ∧ ts ≠ [] ∧ ((m.feed s.ds s.rng).replayEnter ts).2 = false := by
+  cases hsafe : s.op.marksSafe
+  · obtain ⟨ts, hop, hne⟩ := Op.marksSafe_false hsafe
+    cases hans : ((m.feed s.ds s.rng).replayEnter ts).2
+    · exact .inr ⟨ts, hop, hne, hans⟩
+    · exact .inl (QuietOf.entered s ts h.reachable hop hans)
+  · exact .inl (h.safe s hsafe)
+
 end QuietOf
 
 namespace Api
 
-/-- the calls of an `Api.run` after which no mark can be left over -/
+/-- the calls of an `Api.run` after which no mark can be left over: all but a `replayEnter` of a non-empty history -/
 def Op.marksSafe : Api.Op → Bool
-  | .load _ | .replay _ | .replayEnter _ => false
+  | .replayEnter ts => ts.isEmpty
   | _ => true
 
 theorem toOp_marksSafe (o : Api.Op) : (o.toOp : Hfsm.Op U).marksSafe = o.marksSafe := by
@@ -685,16 +782,51 @@ theorem quiet_boot (shape : Shape) (cfg : Config) (ds : List (Decision U)) (rng 
   · exact QuietOf.create.feed ds rng
   · exact QuietOf.create.safe _ rfl
 
-theorem quiet_run_of {shape : Shape} {cfg : Config} : (ops : List Api.Op) → (m : Mach U) →
-    QuietOf shape cfg m → Legal m ops → (∀ o ∈ ops, o.marksSafe = true) → QuietOf shape cfg (run m ops)
+/-- every `replayEnter` of the sequence that is given a non-empty history answers `true` -/
+def NoStaleReplay : Mach U → List Api.Op → Prop
+  | _, [] => True
+  | m, o :: os =>
+    (match o with
+     | .replayEnter ts => ts.isEmpty = true ∨ (m.replayEnter ts).2 = true
+     | _ => True) ∧ NoStaleReplay (step m o) os
+
+theorem noStaleReplay_of_marksSafe : (ops : List Api.Op) → (m : Mach U) →
+    (∀ o ∈ ops, o.marksSafe = true) → NoStaleReplay m ops
+  | [], _, _ => trivial
+  | o :: os, m, hs => by
+      refine ⟨?_, noStaleReplay_of_marksSafe os _ (fun x hx => hs x (List.mem_cons_of_mem _ hx))⟩
+      have := hs o List.mem_cons_self
+      cases o <;> first | trivial | exact .inl this
+
+theorem quiet_run_of' {shape : Shape} {cfg : Config} : (ops : List Api.Op) → (m : Mach U) →
+    QuietOf shape cfg m → Legal m ops → NoStaleReplay m ops → QuietOf shape cfg (run m ops)
   | [], _, h, _, _ => h
   | o :: os, m, h, hl, hs => by
       rw [run_cons]
-      refine quiet_run_of os _ ?_ hl.2 (fun x hx => hs x (List.mem_cons_of_mem _ hx))
+      refine quiet_run_of' os _ ?_ hl.2 hs.2
       rw [step_eq_machStep m o hl.1]
-      exact h.safe _ (by rw [toOp_marksSafe]; exact hs o List.mem_cons_self)
+      cases hsafe : o.marksSafe
+      · cases o with
+        | replayEnter ts =>
+          rcases hs.1 with he | ha
+          · exact absurd (show Op.marksSafe (.replayEnter ts) = true from he) (by rw [hsafe]; simp)
+          · exact QuietOf.entered _ ts h.reachable rfl ha
+        | _ => simp [Op.marksSafe] at hsafe
+      · exact h.safe _ (by rw [toOp_marksSafe]; exact hsafe)
 
-/-- a legal `Api.run` without `load` / replays -/
+theorem quiet_run_of {shape : Shape} {cfg : Config} (ops : List Api.Op) (m : Mach U)
+    (h : QuietOf shape cfg m) (hl : Legal m ops) (hs : ∀ o ∈ ops, o.marksSafe = true) :
+    QuietOf shape cfg (run m ops) :=
+  quiet_run_of' ops m h hl (noStaleReplay_of_marksSafe ops m hs)
+
+/-- **Every legal `Api.run` from `Api.boot` in which no `replayEnter` of a non-empty history answers `false`
+is quiet** — `load`, `replayTransitions` (either answer) and successful `replayEnter`s included. -/
+theorem quiet_run' (shape : Shape) (cfg : Config) (ds : List (Decision U)) (rng : List U) (ops : List Api.Op)
+    (hl : Legal (boot shape cfg ds rng : Mach U) ops) (hs : NoStaleReplay (boot shape cfg ds rng : Mach U) ops) :
+    QuietOf shape cfg (run (boot shape cfg ds rng : Mach U) ops) :=
+  quiet_run_of' ops _ (quiet_boot shape cfg ds rng) hl hs
+
+/-- a legal `Api.run` without `replayEnter` of a non-empty history (`load`s and `replayTransitions` allowed) -/
 theorem quiet_run (shape : Shape) (cfg : Config) (ds : List (Decision U)) (rng : List U) (ops : List Api.Op)
     (hl : Legal (boot shape cfg ds rng : Mach U) ops) (hs : ∀ o ∈ ops, o.marksSafe = true) :
     QuietOf shape cfg (run (boot shape cfg ds rng : Mach U) ops) :=
